@@ -235,6 +235,11 @@ class Interp:
                 self.render_stack.append(inst2)
                 try:
                     out += self.eval(cls2["template"], inst2.tenv, inst2, {}, top | {inst2.no}, depth + 1, False, ())
+                except Expected as e:
+                    # (raised inside get_context_data() of the enclosing component, i.e. before any error of its template)
+                    if not self.collect_errors:
+                        raise
+                    self.errors.append((e.exc_class, e.why))
                 finally:
                     self.render_stack.pop()
             elif k == "injecho":
@@ -337,6 +342,14 @@ class Interp:
                 self.events["inject_default"] += 1
             else:
                 raise Expected("KeyError", f"inject('{key}') without provider or default")
+        if self.collect_errors:
+            # Class.render() calls made by get_context_data() run before the template: their errors can surface before
+            # any error of this component's own template
+            for target in cls.get("pyrender", []):
+                try:
+                    self.eval([["pyecho", target]], (), inst, {}, frozenset(), depth + 1, False, ())
+                except Expected as e:
+                    self.errors.append((e.exc_class, e.why))
         # data returned by get_context_data: fixed values + kwargs echo
         data = dict(cls.get("data", {}))
         for kk, vv in kwargs.items():
